@@ -223,6 +223,58 @@ pub fn run(ctx: &Ctx) {
         }
         let _ = std::fs::remove_dir_all(&dir);
     });
+    // the output path is a symlink to an existing file: a failed command must leave link and target alone
+    {
+        let d = wd.path.join("symlink");
+        std::fs::create_dir_all(&d).unwrap();
+        std::fs::write(d.join("kr.txt"), &kr).unwrap();
+        std::fs::write(d.join("target.bin"), PRIOR).unwrap();
+        let _ = std::os::unix::fs::symlink("target.bin", d.join("OUT"));
+        let mut bad = small_kf.clone();
+        bad[50] ^= 1;
+        std::fs::write(d.join("bad.ktl"), &bad).unwrap();
+        for (what, args, pw) in [
+            ("decrypt with a flipped header bit", vec!["decrypt", "bad.ktl", "-t", "bob", "-o", "OUT", "-k", "kr.txt", "--env-pass"], "bpw"),
+            ("encrypt to an unknown name", vec!["encrypt", "kr.txt", "-t", "nobody", "-f", "alice", "-o", "OUT", "-k", "kr.txt", "--env-pass"], "apw"),
+            ("password decrypt of a key file", vec!["password", "decrypt", "bad.ktl", "-o", "OUT", "--env-pass"], "x"),
+        ] {
+            let o = Cmd::new(&d, &args).pass(pw).run();
+            ctx.eval();
+            let is_link = std::fs::symlink_metadata(d.join("OUT")).map(|m| m.file_type().is_symlink()).unwrap_or(false);
+            let target = std::fs::read(d.join("target.bin")).unwrap_or_default();
+            if o.exit == Exit::Code(1) && is_link && target == PRIOR {
+                ctx.seen("symlinked output path: failed command left link and target intact");
+                ctx.distinct(&format!("symlink|{}", what));
+            } else {
+                ctx.violation("C13:symlinked-output:existing-target-clobbered-or-link-replaced-by-a-failed-command", json!({"case": what, "exit": o.exit.describe(), "still_a_symlink": is_link, "target_len": target.len(), "stderr": o.stderr_s()}));
+            }
+        }
+    }
+    // key generate onto an existing keyring whose write fails (file size limit): exit 1 and the keyring is still
+    // there, byte for byte - a failed command must not destroy what the path held
+    {
+        let d = wd.path.join("genfail");
+        std::fs::create_dir_all(&d).unwrap();
+        let existing = format!("{}\n{}", alice.entry(true), bob.entry(true));
+        for (what, limit) in [("no byte can be written", 1u64), ("the write is cut short", 2u64)] {
+            std::fs::write(d.join("ring.txt"), &existing).unwrap();
+            let o = Cmd::new(&d, &["key", "generate", "-o", "ring.txt", "--env-pass"]).pass("gpw").stdin(Stdin::Bytes(b"newkey\n".to_vec())).fsize_limit(limit).run();
+            ctx.eval();
+            let after = std::fs::read(d.join("ring.txt")).ok();
+            let intact_prefix = after.as_ref().map(|a| a.len() >= existing.len() && a[..existing.len()] == *existing.as_bytes()).unwrap_or(false);
+            if o.exit == Exit::Code(1) && intact_prefix {
+                ctx.seen("key generate whose write fails: existing keyring still present with its content");
+                ctx.distinct(&format!("genfail|{}", what));
+            } else if o.exit == Exit::Code(0) {
+                // the limit did not bite (keyring shorter than expected): not a verdict
+                ctx.seen("key generate under a size limit succeeded (limit not reached)");
+            } else {
+                ctx.violation("C13:key-generate:write-failure:existing-keyring-destroyed-or-altered", json!({"case": what, "existing_len": existing.len(), "limit_blocks": limit, "exit": o.exit.describe(), "stderr": o.stderr_s(), "file_after_len": after.as_ref().map(|a| a.len())}));
+            }
+        }
+    }
+    ctx.require("key generate whose write fails", 1);
+    ctx.require("symlinked output path", 3);
     ctx.require("encrypt: failed before", 20);
     ctx.require("decrypt: failed before", 30);
     ctx.require("password encrypt: failed before", 8);
